@@ -134,32 +134,7 @@ def run(ctx):
                 if v:
                     r.violate(key, f"{em} with tag_start still marked: {e.describe()}", shared.state_loc(e.state))
 
-    # ---------------------------------------------------------------- R09.3
-    r = ctx.rule("R09.3", "look-ahead hold-back is bounded: every exit of a sequence arm other than the end-of-chunk break leaves sequence matching; sequences are at most 7 bytes; only enter/leave write ch_sequence_matching_start", "E-SM+E-AST", floor=11)
-    nseq = set()
-    for st, s in aut.states.items():
-        for l in s["leaves"]:
-            names = [a["name"] for a in l["acts"]]
-            if "@enter_seq" not in names:
-                continue
-            depth = 0
-            for a in names:
-                if a == "@enter_seq":
-                    depth += 1
-                elif a == "@leave_seq":
-                    depth -= 1
-            is_eoc_break = l["term"]["t"] == "break" and l["last"] is False
-            key = st + "|" + ("eoc" if is_eoc_break else "exit")
-            if "@consume_several" in names:
-                seq = tuple([l["c0"]] + [l["la"][k] for k in sorted(l["la"])])
-                nseq.add((st, seq))
-                if len(seq) > 7:
-                    r.violate(st + "|len", f"look-ahead sequence of {len(seq)} bytes in {st} exceeds the documented few-byte hold-back", shared.state_loc(st))
-            if not is_eoc_break:
-                if depth != 0:
-                    r.violate(key, f"a sequence arm of {st} exits without leave_ch_sequence_matching: {shared.leaf_str(st, l)}", shared.state_loc(st))
-    for k in sorted(nseq):
-        r.inst(k[0] + "|" + "".join(fmt_mask(m) for m in k[1]))
+    r, nseq = rule_seq_mark(ctx, aut)
     sm_ms = impl_methods(idx, "TagScanner", "StateMachine")
     writers = sorted(n for n, f in sm_ms.items() for fld, e, _ in field_effects(f) if fld == "ch_sequence_matching_start")
     writers += sorted(n for n, f in ms.items() for fld, e, _ in field_effects(f) if fld == "ch_sequence_matching_start")
@@ -202,3 +177,33 @@ def run(ctx):
     return ("Static analysis of the tokenizer automaton extracted from the macro-expanded StateMachine trait "
             "(%d states, %d leaves): typestate/dataflow of the tag-scanner's hold-back marks over every path of the automaton; "
             "decides the structural hold-back clauses of C09, not the run-time byte counts." % (len(aut.states), sum(len(s['leaves']) for s in aut.states.values())))
+
+
+def rule_seq_mark(ctx, aut, rid="R09.3"):
+    # ---------------------------------------------------------------- R09.3
+    r = ctx.rule(rid, "look-ahead hold-back is bounded: every exit of a sequence arm other than the end-of-chunk break leaves sequence matching; sequences are at most 7 bytes; only enter/leave write ch_sequence_matching_start", "E-SM+E-AST", floor=11)
+    nseq = set()
+    for st, s in aut.states.items():
+        for l in s["leaves"]:
+            names = [a["name"] for a in l["acts"]]
+            if "@enter_seq" not in names:
+                continue
+            depth = 0
+            for a in names:
+                if a == "@enter_seq":
+                    depth += 1
+                elif a == "@leave_seq":
+                    depth -= 1
+            is_eoc_break = l["term"]["t"] == "break" and l["last"] is False
+            key = st + "|" + ("eoc" if is_eoc_break else "exit")
+            if "@consume_several" in names:
+                seq = tuple([l["c0"]] + [l["la"][k] for k in sorted(l["la"])])
+                nseq.add((st, seq))
+                if len(seq) > 7:
+                    r.violate(st + "|len", f"look-ahead sequence of {len(seq)} bytes in {st} exceeds the documented few-byte hold-back", shared.state_loc(st))
+            if not is_eoc_break:
+                if depth != 0:
+                    r.violate(key, f"a sequence arm of {st} exits without leave_ch_sequence_matching: {shared.leaf_str(st, l)}", shared.state_loc(st))
+    for k in sorted(nseq):
+        r.inst(k[0] + "|" + "".join(fmt_mask(m) for m in k[1]))
+    return r, nseq
